@@ -137,11 +137,70 @@ def table_items(tier, start_id):
     return items
 
 
+def capture_header_fields(rep, tier, rnd, d):
+    """the seven properties of the pcap object against the 24 bytes of the global header (spec/PcapHdrTrace.tla):
+    boundary and random values of every field, microsecond and nanosecond magic (little-endian files: the only kind
+    the reader accepts)"""
+    import os
+    bounds32 = [0, 1, 6, 255, 256, 65535, 65536, 262144, 0x7fffffff, 0x80000000, 0xfffffffe, 0xffffffff]
+    bounds16 = [0, 1, 2, 4, 255, 256, 0x7fff, 0x8000, 0xffff]
+    zones = [0, 1, -1, -3600, 19800, -43200, 0x7fffffff, -0x80000000, -0x7fffffff]
+    hdrs = []
+    for z in zones:
+        hdrs.append(dict(thiszone=z))
+    for v in bounds32:
+        hdrs += [dict(sigfigs=v), dict(snaplen=v), dict(linktype=v)]
+    for v in bounds16:
+        hdrs += [dict(vmaj=v), dict(vmin=v)]
+    for _ in range(40 if tier == "quick" else 600):
+        hdrs.append(dict(vmaj=rnd.randrange(65536), vmin=rnd.randrange(65536), thiszone=rnd.randrange(-2 ** 31, 2 ** 31),
+                         sigfigs=rnd.randrange(2 ** 32), snaplen=rnd.randrange(2 ** 32), linktype=rnd.randrange(2 ** 32)))
+    cases = []
+    raws = []
+    names = ["magic", "major", "minor", "thiszone", "sigfigs", "snaplen", "linktype"]
+    for k, h in enumerate(hdrs):
+        h = dict(h)
+        h["magic"] = 0xa1b23c4d if k % 3 == 2 else 0xa1b2c3d4
+        raw = pcapfmt.global_header(**h)
+        path = os.path.join(d, "gh%d.pcap" % k)
+        # (every other file also holds a record: the header is the same object either way)
+        open(path, "wb").write(raw + (pcapfmt.record(pcapfmt.simple_tcp_frame()) if k % 2 else b""))
+        src = "let OBS = [];\nlet f = pcap_open(\"%s\");\n" % path + "".join("push(OBS, f.%s);\n" % n for n in names)
+        cases.append({"id": "gh%d" % k, "src": src})
+        raws.append(raw)
+    res = core.run_cases(cases)
+    recs = []
+    for c, raw in zip(cases, raws):
+        r = res[c["id"]]
+        obs = {}
+        vals = ((r.get("obs") or {}).get("v") or [])
+        for i, n in enumerate(names):
+            o = vals[i] if i < len(vals) else {"k": "missing"}
+            if o.get("k") == "int":
+                word = int.from_bytes(bytes(o["v"]), "little", signed=True)
+                obs[n] = {"k": "int", "neg": word < 0, "mag": list(abs(word).to_bytes(9, "little"))[:8]}
+            else:
+                obs[n] = {"k": o.get("k", "missing"), "neg": False, "mag": []}
+        recs.append({"id": c["id"], "raw": list(raw), "obs": obs, "how": r.get("how")})
+    verdicts, tres = core.tlc_validate("PcapHdrTrace", recs, workers=2)
+    rep.add_tlc(tres)
+    rep.cov["traces_validated_against_impl"] += len(recs)
+    rep.cov["evaluations"] += len(recs) * len(names)
+    for c, raw, rec in zip(cases, raws, recs):
+        v = verdicts[c["id"]]
+        if v["v"] == "bad":
+            rep.disagree("decode capture-header %s got=%s" % (v["first"], rec["obs"][v["first"]]["k"] if v["first"] else rec["how"]),
+                         {"header_hex": raw.hex(), "field": v["first"], "observed": res[c["id"]].get("obs"), "how": rec["how"],
+                          "msg": res[c["id"]].get("msg")})
+    return len(recs)
+
+
 def run(rep, tier, seed):
     core.build_harness()
     rnd = random.Random(seed)
     d = core.workdir("c16")
     try:
+        nhdr = capture_header_fields(rep, tier, rnd, d)
         items = make_items(rnd, 2500 if tier == "quick" else 30000, every_offset=False, checks=("read",))
         for it in items:
             it["tag"] = "random " + "/".join(k for k, _ in it["layers"])
@@ -169,11 +228,12 @@ def run(rep, tier, seed):
                     sig = "decode %s got=%s" % (it["tag"], got.get("k"))
                 rep.disagree(sig, {"step": desc, "frame_hex": bytes(it["raw"]).hex(), "got": got, "script": it["src"],
                                    "run": it["run"], "why": v["why"]})
-        rep.cov["distinct_nontrivial"] = len({(it["tag"], bytes(it["raw"])) for it in items})
+        rep.cov["distinct_nontrivial"] = len({(it["tag"], bytes(it["raw"])) for it in items}) + nhdr
         rep.cov["rule"] = ("random structure-aware frames x truncations x random reads; field tables: 36 scalar fields x "
                            "(all values up to 8 bits [thorough 12], boundary + walking-one/zero otherwise) x 3 surroundings; "
                            "dispatch values around every supported selector for named and $n access; $0..$11; record-header "
-                           "fields above 2^31 and documented aliases; distinct = distinct (case tag, frame)")
+                           "fields above 2^31 and documented aliases; the seven properties of the pcap object over boundary and random "
+                           "global headers (spec/PcapHdrTrace.tla); distinct = distinct (case tag, frame)")
         rep.cov["exhaustive"] = False
         rep.sample({"frame_hex": bytes(items[-1]["raw"]).hex(), "script": items[-1]["src"], "steps": items[-1]["steps"]})
     finally:
